@@ -1209,3 +1209,12 @@ package tsm1
 // not declared: they are only rewritten by the holder of the reader's deleteMu, which is also the only one that
 // reads them without d.mu (DeleteRange's walk).
 //@ guarded indirectIndex.tombstones by mu
+
+// ---- C01: the WAL replay counts every segment from its own start ----
+// CacheLoader.Load reuses one reader for all segments and truncates a segment with a torn tail at Count(): Reset has
+// to start the count at zero, or a later segment is truncated too far out and the garbage stays in front of the
+// writes that are appended after the recovery.
+//@ func (*WALSegmentReader).Reset
+//@   props C01
+//@   nosafety
+//@   ensures a_new_segment_is_counted_from_zero: r.n == 0
